@@ -44,6 +44,18 @@ Theorem C20_is_pow2 : forall a, 1 <= a -> (IS_POW2_c a = true <-> exists k, 0 <=
 Proof. exact is_pow2_iff. Qed.
 Print Assumptions C20_is_pow2.
 
+(* getSubsamp(): sampling factors written in a standard or non-standard way denote a level only through their ratios,
+   and libjpeg's component sizes for them are the published plane sizes of that level (factors 1..4: finite sweep) *)
+Theorem C20_subsamp_ratio : subsamp_ratio_statement.
+Proof. exact subsamp_ratio_proof. Qed.
+Print Assumptions C20_subsamp_ratio.
+
+Example C20_ex_getSubsamp :
+  getSubsamp3 2 1 1 1 1 1 = TJSAMP_422 /\ getSubsamp3 2 2 1 2 1 2 = TJSAMP_422 /\ getSubsamp3 2 2 2 1 2 1 = TJSAMP_440 /\
+  getSubsamp3 3 1 3 1 3 1 = TJSAMP_444 /\ getSubsamp3 4 1 1 1 1 1 = TJSAMP_411 /\ getSubsamp3 1 4 1 1 1 1 = TJSAMP_441 /\
+  getSubsamp3 4 2 1 2 1 2 = TJSAMP_UNKNOWN /\ getSubsamp3 2 2 2 2 2 2 = TJSAMP_UNKNOWN /\ getSubsamp3 2 1 1 1 2 1 = TJSAMP_UNKNOWN.
+Proof. exact ex_getSubsamp. Qed.
+
 (* non-vacuity: the hypotheses are satisfiable and the functions compute the published numbers *)
 Example C20_ex_valid_args : valid_samp TJSAMP_420 /\ valid_samp TJSAMP_GRAY /\ valid_samp TJSAMP_411 /\ valid_samp TJSAMP_441 /\
   valid_dim 35 /\ valid_dim 2147483647 /\ valid_align 1 /\ valid_align 4 /\ valid_align 1073741824 /\
